@@ -18,6 +18,7 @@
   * `sound_all`: every routine of the program matches `Src.eval`.
 -/
 import PyTealV.Proofs.C02GenSem
+import PyTealV.Proofs.C02GenWide
 import PyTealV.Proofs.C02GenSrc
 namespace PyTealV.Proofs.C02Gen
 open PyTealV PyTealV.Avm PyTealV.Src PyTealV.Comp PyTealV.Models.Fragment PyTealV.Models.FragmentR
@@ -1197,7 +1198,9 @@ theorem sound_all {P : PCtx} (hP : ProgOK P) (hC : CallPresent P) (hF : FramePro
         ev := fun e s k L bc rc n σ ic bcs w r w' hs hw h =>
           step_ev (hR.facts hP) ihs
             (fun f' args ce s cb k L bc rc n σ ic bcs w r w' hf hb ha hw h =>
-              case_call hP hC hF hI hEnt ihAll hR ihf hf hb ha hw h) hs hw h
+              case_call hP hC hF hI hEnt ihAll hR ihf hf hb ha hw h)
+            (fun ns ds s dstart cb k L bc rc n σ ic bcs w r w' hb hd hn hw h =>
+              case_wide ihs hb hd hn hw h) hs hw h
         args := fun es s k L acc σ ic bcs w r w' ha hw h => step_args ihf ha hw h
         seq := fun es s k L bc rc n σ ic bcs w r w' hs hw h => step_seq ihf hs hw h
         cond := fun arms s endB errB L bc rc n σ ic bcs w r w' hs herr hw h => step_cond ihf hs herr hw h
